@@ -107,6 +107,17 @@ pub assume_specification<T, K> [http::HeaderMap::<T>::append] (m: &mut http::Hea
                 if hm_view(*old(m)).contains_key(key_view(k)) { hm_view(*old(m))[key_view(k)].push(v) } else { seq![v] });
 pub assume_specification<T, K> [http::HeaderMap::<T>::remove] (m: &mut http::HeaderMap<T>, k: K) -> (r: std::option::Option<T>) where K: http::header::AsHeaderName,
     ensures hm_view(*final(m)) == hm_view(*old(m)).remove(key_view(k));
+// get: "Returns a reference to the value associated with the key. If there are multiple values ... the first one is returned."
+pub assume_specification<T, K> [http::HeaderMap::<T>::get] (m: &http::HeaderMap<T>, k: K) -> (r: std::option::Option<&T>) where K: http::header::AsHeaderName,
+    ensures match r { Some(v) => hm_view(*m).contains_key(key_view(k)) && hm_view(*m)[key_view(k)].len() > 0 && *v == hm_view(*m)[key_view(k)][0],
+                      None => !hm_view(*m).contains_key(key_view(k)) };
+pub assume_specification<T, K> [http::HeaderMap::<T>::contains_key] (m: &http::HeaderMap<T>, k: K) -> (r: bool) where K: http::header::AsHeaderName,
+    ensures r == hm_view(*m).contains_key(key_view(k));
+#[verifier::external_type_specification] #[verifier::external_body]
+pub struct ExToStrError(http::header::ToStrError);
+pub uninterp spec fn hv_visible_ascii(v: http::header::HeaderValue) -> bool;    // every byte is visible ASCII (32..=126) or tab
+pub assume_specification [http::HeaderValue::to_str] (v: &http::HeaderValue) -> (r: std::result::Result<&str, http::header::ToStrError>)
+    ensures (r is Ok) == hv_visible_ascii(*v), r matches Ok(s) ==> s@ == hv_view(*v);
 pub assume_specification [http::HeaderName::from_static] (s: &'static str) -> (r: http::HeaderName)
     ensures hn_view(r) == s@;
 pub assume_specification [http::HeaderValue::from_str] (s: &str) -> (r: std::result::Result<http::HeaderValue, http::header::InvalidHeaderValue>)
